@@ -40,8 +40,8 @@ func newRandCtx(r *tr.Rng) *randCtx {
 		}
 	}
 	for _, f := range randFixed {
-		if f.Name == "error" {
-			continue
+		if f.Name == "error" || f.T.Kind() == reflect.Interface {
+			continue // (interface{} positions get a random dynamic value of their own, not a canned one)
 		}
 		c.fixed = append(c.fixed, f)
 		c.byType[f.T] = f
